@@ -26,7 +26,8 @@ Inductive stmt : Type :=
 | SMutate (c : cell) (t : N)         (* store c := mu t (store c) private      (in-place mutation) *)
 | SCall (f : fid)
 | SIf (t : N) (a b : list stmt)
-| SWhile (t : N) (body : list stmt).
+| SWhile (t : N) (body : list stmt)
+| SGuard (c : cell) (body : list stmt).   (* if <shared flag c>: body      (`if debug_mode: ..`) *)
 
 Definition prog := list (fid * list stmt).
 
@@ -40,6 +41,12 @@ Definition mem (x : N) (l : list N) : bool := existsb (N.eqb x) l.
 
 (* ---------------------------------------------------------------- the analyser *)
 
+(* `off`: shared flags ASSUMED false in the initial store (debug flags: the theorems take  truthy (g c) = false  for c in off as
+   a hypothesis, and the analyser checks that no reachable statement outside a block guarded by such a flag writes ANY cell - so
+   the flags stay false).  A block guarded by a flag in `off` is dead and is skipped.  off = []: no assumption. *)
+Section Analyser.
+Variable off : list cell.
+
 (* a statement without shared writes whose calls stay inside R *)
 Fixpoint stmt_ok (R : list fid) (s : stmt) : bool :=
   match s with
@@ -48,6 +55,7 @@ Fixpoint stmt_ok (R : list fid) (s : stmt) : bool :=
   | SCall f => mem f R
   | SIf _ a b => forallb (stmt_ok R) a && forallb (stmt_ok R) b
   | SWhile _ b => forallb (stmt_ok R) b
+  | SGuard c b => mem c off || forallb (stmt_ok R) b
   end.
 
 Fixpoint stmt_calls (s : stmt) : list fid :=
@@ -55,6 +63,7 @@ Fixpoint stmt_calls (s : stmt) : list fid :=
   | SCall f => [f]
   | SIf _ a b => flat_map stmt_calls a ++ flat_map stmt_calls b
   | SWhile _ b => flat_map stmt_calls b
+  | SGuard c b => if mem c off then [] else flat_map stmt_calls b
   | _ => []
   end.
 
@@ -63,6 +72,7 @@ Fixpoint stmt_writes (s : stmt) : list cell :=
   | SWrite c _ | SMutate c _ => [c]
   | SIf _ a b => flat_map stmt_writes a ++ flat_map stmt_writes b
   | SWhile _ b => flat_map stmt_writes b
+  | SGuard c b => if mem c off then [] else flat_map stmt_writes b
   | _ => []
   end.
 
@@ -71,6 +81,7 @@ Fixpoint stmt_reads (s : stmt) : list cell :=
   | SRead c _ | SMutate c _ => [c]
   | SIf _ a b => flat_map stmt_reads a ++ flat_map stmt_reads b
   | SWhile _ b => flat_map stmt_reads b
+  | SGuard c b => c :: (if mem c off then [] else flat_map stmt_reads b)
   | _ => []
   end.
 
@@ -104,6 +115,7 @@ Definition read_set (p : prog) (e : fid) : list cell :=
 
 Definition isolated (p : prog) (e : fid) : bool :=
   let R := reach_of p e in mem e R && closed p R.
+End Analyser.
 
 (* the over-approximation the translator emits for a function body: any number of rounds, each round one of the effects
    (tests are numbered by position, so that the test function can pick any of them) *)
@@ -124,6 +136,7 @@ Variable tst : N -> P -> bool.
 Variable wr : N -> P -> V.
 Variable mu : N -> V -> P -> V.
 Variable out : N -> P -> Y.
+Variable truthy : V -> bool.
 Variable pr : prog.
 
 Definition store := cell -> V.
@@ -152,6 +165,7 @@ Definition step (g : store) (c : cfg) : store * cfg :=
     | SCall f => (g, mkC (c_priv c) (c_outs c) (body_of pr f ++ k) (c_err c))
     | SIf t a b => (g, mkC (c_priv c) (c_outs c) ((if tst t (c_priv c) then a else b) ++ k) (c_err c))
     | SWhile t b => (g, mkC (c_priv c) (c_outs c) (if tst t (c_priv c) then b ++ SWhile t b :: k else k) (c_err c))
+    | SGuard x b => (g, mkC (c_priv c) (c_outs c) (if truthy (g x) then b ++ k else k) (c_err c))
     end
   end.
 
@@ -202,4 +216,10 @@ Definition ex_tst (t : N) (p : N) : bool := N.ltb p 20%N.
 Definition ex_wr (t : N) (p : N) : N := 7%N.
 Definition ex_mu (t : N) (v : N) (p : N) : N := (v + 1)%N.
 Definition ex_out (t : N) (p : N) : N := p.
-Definition ex_store : cell -> N := fun c => (c + 5)%N.
+Definition ex_store : cell -> N := fun c => if N.eqb c 7%N then 0%N else (c + 5)%N.
+Definition ex_truthy (v : N) : bool := negb (N.eqb v 0%N).
+
+(* a program whose only shared write sits under a flag (cell 7) that is false in ex_store: `if debug_mode: set_debug_mode()` *)
+Definition ex_guarded : prog :=
+  [(1%N, [SRead 0%N 0%N; SGuard 7%N [SCall 2%N]; SEmit 0%N]);
+   (2%N, [SWrite 0%N 0%N; SWrite 7%N 0%N])].
